@@ -100,3 +100,104 @@ func c12GroupCounts(r *vf.Run) {
 		}
 	})
 }
+
+// c12Whitespace: values that differ only in the blanks inside them (two spaces, a tab, a newline, leading and trailing
+// blanks) as literals of otherwise identical texts asked one after the other, and as arguments whose boundary shifts
+// ("x y","z" then "x","y z"), on every DSN option set: each text and each argument list means what it says.
+func c12Whitespace(r *vf.Run) {
+	if !r.Want("whitespace") {
+		return
+	}
+	vals := []string{"x y", "x  y", "x\ty", "x\ny", " x y", "x y ", "xy", "x", "y z", "z", "x y z", "y", ""}
+	ds := &gen.Dataset{ID: "whitespace"}
+	for i := 0; i < 6*len(vals)*len(vals); i++ {
+		ds.Rows = append(ds.Rows, oracle.Row{"a": vals[i%len(vals)], "b": vals[(i/len(vals))%len(vals)], "c": fmt.Sprint((i / 7) % (2 + i%3))})
+	}
+	ds.Index()
+	dir := filepath.Join(r.Scratch, "whitespace")
+	mustMkdir(dir)
+	path := filepath.Join(dir, "ds.updog")
+	if err := ix.Build(ix.Writers[int(r.Seed)%3], path, ds.Rows); err != nil {
+		r.Violation("whitespace", "build", err.Error())
+		return
+	}
+	for _, o := range dsnOptionSets {
+		cid := "whitespace/" + o.name
+		if !r.Want(cid) {
+			continue
+		}
+		db, err := sql.Open("updog", "file:"+path+o.opts)
+		if err != nil {
+			r.Violation(cid, "sql.Open", err.Error())
+			return
+		}
+		bad := false
+		check := func(step string, tmpl *oracle.Expr, gb []string, strs []string, rows *sql.Rows, qerr error) {
+			r.Eval(1)
+			sub, _ := oracle.Substitute(tmpl, strs)
+			want := oracle.Eval(ds.Rows, ds.Cols, sub, gb)
+			if qerr != nil {
+				r.Violation(cid, "unexpected-error", map[string]any{"step": step, "error": qerr.Error(), "options": o.name})
+				bad = true
+				return
+			}
+			got, rerr := readRows(rows)
+			if rerr != nil {
+				r.Violation(cid, "rows", map[string]any{"step": step, "error": rerr.Error()})
+				bad = true
+				return
+			}
+			if d := compareTables(got, expectedTable(want, gb)); d != "" {
+				r.Violation(cid, "rows", map[string]any{"step": step, "literal_query": fmt.Sprintf("%q", sub.String()), "group_by": gb, "difference": d, "options": o.name})
+				bad = true
+			}
+		}
+		panicked, msg, _ := vf.Try(func() {
+			// literals
+			for pass := 0; pass < 2 && !bad; pass++ {
+				for _, v := range vals {
+					for gi, gb := range [][]string{nil, {"c"}} {
+						if bad {
+							break
+						}
+						e := oracle.Eq("a", v)
+						if gi == 1 {
+							e = oracle.And(oracle.Eq("a", v), oracle.Not(oracle.Eq("b", "z")))
+						}
+						text := gen.FormatQuery(e, gb)
+						rows, qerr := db.Query(text)
+						check(fmt.Sprintf("literal %q", v), e, gb, nil, rows, qerr)
+					}
+				}
+			}
+			// arguments whose boundary shifts, on one prepared statement and on the direct path
+			tmpl, gb := oracle.And(oracle.PhEq("a", 1), oracle.PhEq("b", 2)), []string{"c"}
+			text := gen.FormatQuery(tmpl, gb)
+			st, err := db.Prepare(text)
+			if err != nil {
+				r.Violation(cid, "prepare", err.Error())
+				return
+			}
+			defer st.Close()
+			for _, args := range [][]string{{"x y", "z"}, {"x", "y z"}, {"x y", "z"}, {"x  y", "z"}, {"x", "y"}, {"x y z", ""}, {"", "x y z"}, {"x", "y z"}} {
+				if bad {
+					break
+				}
+				rows, qerr := st.Query(args[0], args[1])
+				check(fmt.Sprintf("prepared, arguments %q", args), tmpl, gb, args, rows, qerr)
+				if bad {
+					break
+				}
+				rows, qerr = db.Query(text, args[0], args[1])
+				check(fmt.Sprintf("direct, arguments %q", args), tmpl, gb, args, rows, qerr)
+			}
+		})
+		if panicked {
+			r.Violation(cid, "panic", map[string]any{"panic": msg})
+			continue
+		}
+		r.Distinct(cid)
+		r.Count("whitespace_variant_queries", 1)
+		db.Close()
+	}
+}
